@@ -31,6 +31,60 @@ def enc_block_tok(t) -> str:
                      enc(t.markup), enc(t.info), meta, "1" if t.block else "0", "1" if t.hidden else "0"])
 
 
+QLINES = ["> a", ">a", ">", "> ", ">\ta", "> \ta", ">  \tb", " > c", "   > d", "    > e", "> > f", ">> g", "> >\th", ">\t>\ti", "lazy", "  lazy", "> # h",
+          "> ***", "> ```", "> ~~~", "> ```", ">     code", ">\t\tcode", "> ---", "***", "# h", "```", "", "", ">  ", ">\t", "> > ", ">>", ">x\t", "    lazy code",
+          "> - a", "> 1. b", ">\x0bv", "> \xa0", "\t> t", " \t> u", ">  \t  \tq"]
+
+
+def rand_q(rng) -> str:
+    n = rng.randint(1, 9)
+    pool = QLINES if rng.random() < 0.7 else QLINES + LINES
+    return "\n".join(rng.choice(pool) for _ in range(n)) + rng.choice(TAILS)
+
+
+def tie_quote(ctx: Ctx, drv: Driver, n: int) -> None:
+    """the same tie with the block quote rule in the chain (driver `qblock`): nested quotes, lazy lines, terminators, tabs"""
+    from markdown_it import MarkdownIt
+
+    rng = ctx.rng
+    mds = {}
+    lines, impl, meta = [], [], []
+    fixed = ["> > \n> \n\nfoo\n", "> a\nlazy\n> b\n", ">\ta\n>\n>  \tb", "> > > x\n> y\nz\n", "> ```\n> c\n```\n", "> a\n***\n> b", "> # h\n# g\n"]
+    for i in range(n):
+        k = i % 5
+        if i < len(fixed):
+            src = fixed[i]
+        else:
+            src = rand_q(rng) if k < 3 else (gens.struct_doc(rng, 2) if k == 3 else next(gens.doc_stream(rng, 1, 6)))
+        bits = rng.randrange(16) if i % 3 else 15
+        mn = rng.choice([100, 100, 100, 20, 1, 0, 2, 3])
+        key = (bits, mn)
+        if key not in mds:
+            md = MarkdownIt("zero", {"maxNesting": mn})
+            md.enable(["blockquote"] + [NAMES[j] for j in range(4) if bits >> (3 - j) & 1])
+            mds[key] = md
+        md = mds[key]
+        try:
+            toks = md.parse(src)
+            out = "ok " + " ".join(enc_block_tok(t) for t in toks)
+        except Exception as e:  # noqa: BLE001
+            out = "e:" + type(e).__name__
+        lines.append(f"qblock {bits:04b} {mn} {enc(src)}")
+        impl.append(out.strip())
+        meta.append((src, bits, mn))
+    got = drv.batch(lines)
+    bad = 0
+    for ln, a, b, m in zip(lines, impl, got, meta):
+        ctx.corr_compared += 1
+        if a != b.strip():
+            bad += 1
+            if bad <= 5:
+                ctx.mismatch("block sub-parser with block quotes: implementation and model differ",
+                             {"input": m[0], "enabled": ["blockquote"] + [NAMES[j] for j in range(4) if m[1] >> (3 - j) & 1], "maxNesting": m[2],
+                              "impl": a[:600], "model": b.strip()[:600], "request": ln[:400]})
+    ctx.cov["qblock_documents_compared"] = len(lines)
+
+
 def tie(ctx: Ctx, drv: Driver, n: int) -> None:
     from markdown_it import MarkdownIt
 
